@@ -199,3 +199,5 @@ def run(ctx: Ctx, repo: Repo, tier: str) -> None:
     tracer_no_memory(ctx, repo, "R-C05.6")
     from .memo_rules import infer_no_memory
     infer_no_memory(ctx, repo, "R-C05.7")
+    from .compat_rules import compat_predicates
+    compat_predicates(ctx, repo, "R-C05.8", ("types_equal",))
